@@ -4,6 +4,7 @@
 import Winter.Drv.Util
 import Winter.Model.Field
 import Winter.Model.Poly
+import Winter.Model.PolyGen
 
 namespace Drv.C20
 open Model Model.Poly
@@ -185,10 +186,19 @@ def batches (n : Nat) : Nat → List α → List (List α)
   | 0, _ => []
   | k + 1, xs => xs.take n :: batches n k (xs.drop n)
 
+/-- tie T: the model's answer, with the answer of the definition regenerated from the Rust source on this run
+    appended when it differs (so that a difference shows up as a disagreement with the compiled code) -/
+def chk (m g : String) : String := if m == g ∨ m == "hang" ∨ g == "skip" then m else s!"{m} gen={g}"
+
+def genList (D : Dr α β) (ok : Bool) (xs : List α) : String := if ok then renderList D xs else "panic"
+
+/-- the regenerated definitions index lists (quadratic cost): they are evaluated on inputs of at most 256 elements -/
+def small (n : Nat) (g : Unit → String) : String := if n ≤ 256 then g () else "skip"
+
 def handleF (D : Dr α β) : List String → String
   | ["eval", p, x] =>
     match parseList D.parse p, D.parse x with
-    | some p, some x => D.render (eval D.ops p x)
+    | some p, some x => chk (D.render (eval D.ops p x)) (small p.length fun _ => D.render (Gen.Polynom.eval D.ops.toX p x))
     | _, _ => "bad-op"
   | ["evalb", p, x] =>
     match parseList D.parseSub p, D.parse x with
@@ -200,35 +210,44 @@ def handleF (D : Dr α β) : List String → String
     | _, _ => "bad-op"
   | ["add", a, b] =>
     match parseList D.parse a, parseList D.parse b with
-    | some a, some b => renderList D (add D.ops a b)
+    | some a, some b => chk (renderList D (add D.ops a b))
+        (small (a.length + b.length) fun _ => genList D (Gen.Polynom.add_ok D.ops.toX a b) (Gen.Polynom.add D.ops.toX a b))
     | _, _ => "bad-op"
   | ["sub", a, b] =>
     match parseList D.parse a, parseList D.parse b with
-    | some a, some b => renderList D (sub D.ops a b)
+    | some a, some b => chk (renderList D (sub D.ops a b))
+        (small (a.length + b.length) fun _ => genList D (Gen.Polynom.sub_ok D.ops.toX a b) (Gen.Polynom.sub D.ops.toX a b))
     | _, _ => "bad-op"
   | ["mul", a, b] =>
     match parseList D.parse a, parseList D.parse b with
-    | some a, some b => resList D (mul D.ops a b)
+    | some a, some b => chk (resList D (mul D.ops a b))
+        (small (a.length * b.length / 8) fun _ => genList D (Gen.Polynom.mul_ok D.ops.toX a b) (Gen.Polynom.mul D.ops.toX a b))
     | _, _ => "bad-op"
   | ["scal", p, k] =>
     match parseList D.parse p, D.parse k with
-    | some p, some k => renderList D (mulByScalar D.ops p k)
+    | some p, some k => chk (renderList D (mulByScalar D.ops p k))
+        (small p.length fun _ => genList D (Gen.Polynom.mul_by_scalar_ok D.ops.toX p k) (Gen.Polynom.mul_by_scalar D.ops.toX p k))
     | _, _ => "bad-op"
   | ["div", a, b] =>
     match parseList D.parse a, parseList D.parse b with
-    | some a, some b => resList D (div D.ops a b)
+    | some a, some b => chk (resList D (div D.ops a b))
+        (small (a.length * (b.length + 1) / 8) fun _ => genList D (Gen.Polynom.div_ok D.ops.toX a b) (Gen.Polynom.div D.ops.toX a b))
     | _, _ => "bad-op"
   | ["syndiv", p, a, b] =>
     match parseList D.parse p, parseNum a 100000, D.parse b with
-    | some p, some a, some b => resList D (synDiv D.ops p a b)
+    | some p, some a, some b => chk (resList D (synDiv D.ops p a b))
+        (small p.length fun _ => genList D (Gen.Polynom.syn_div_ok D.ops.toX p a b) (Gen.Polynom.syn_div D.ops.toX p a b))
     | _, _, _ => "bad-op"
   | ["syndivroots", p, roots] =>
     match parseList D.parse p, parseList D.parse roots with
-    | some p, some roots => resList D (synDivRoots D.ops p roots)
+    | some p, some roots => chk (resList D (synDivRoots D.ops p roots))
+        (small (p.length * roots.length / 8) fun _ => genList D (Gen.Polynom.syn_div_roots_in_place_ok D.ops.toX p roots)
+          (Gen.Polynom.syn_div_roots_in_place D.ops.toX p roots))
     | _, _ => "bad-op"
   | ["roots", xs] =>
     match parseList D.parse xs with
-    | some xs => resList D (polyFromRoots D.ops xs)
+    | some xs => chk (resList D (polyFromRoots D.ops xs))
+        (small (xs.length * xs.length / 8) fun _ => genList D (Gen.Polynom.poly_from_roots_ok D.ops.toX xs) (Gen.Polynom.poly_from_roots D.ops.toX xs))
     | _ => "bad-op"
   | ["interp", xs, ys, rlz] =>
     match parseList D.parse xs, parseList D.parse ys with
@@ -249,19 +268,29 @@ def handleF (D : Dr α β) : List String → String
     | _, _, _, _, _ => "bad-op"
   | ["deg", p] =>
     match parseList D.parse p with
-    | some p => toString (degreeOf D.ops p)
+    | some p => chk (toString (degreeOf D.ops p))
+        (small p.length fun _ => if Gen.Polynom.degree_of_ok D.ops.toX p then toString (Gen.Polynom.degree_of D.ops.toX p) else "panic")
     | _ => "bad-op"
   | ["rlz", p] =>
     match parseList D.parse p with
-    | some p => renderList D (removeLeadingZeros D.ops p)
+    | some p => chk (renderList D (removeLeadingZeros D.ops p))
+        (small p.length fun _ => genList D (Gen.Polynom.remove_leading_zeros_ok D.ops.toX p) (Gen.Polynom.remove_leading_zeros D.ops.toX p))
     | _ => "bad-op"
   | ["pser", b, n] =>
     match D.parse b, parseNum n 1048576 with
-    | some b, some n => renderList D (getPowerSeries D.ops b n)
+    | some b, some n =>
+      -- serial path: `fill_power_series(result, b, b.exp(0))` on the whole (zero-initialised) vector
+      let z := List.replicate n D.ops.zero
+      chk (renderList D (getPowerSeries D.ops b n))
+        (small n fun _ => genList D (Gen.MathUtils.fill_power_series_ok D.ops.toX z b D.ops.one)
+          (Gen.MathUtils.fill_power_series D.ops.toX z b D.ops.one))
     | _, _ => "bad-op"
   | ["psero", b, s, n] =>
     match D.parse b, D.parse s, parseNum n 1048576 with
-    | some b, some s, some n => renderList D (getPowerSeriesWithOffset D.ops b s n)
+    | some b, some s, some n =>
+      let z := List.replicate n D.ops.zero
+      chk (renderList D (getPowerSeriesWithOffset D.ops b s n))
+        (small n fun _ => genList D (Gen.MathUtils.fill_power_series_ok D.ops.toX z b s) (Gen.MathUtils.fill_power_series D.ops.toX z b s))
     | _, _, _ => "bad-op"
   | ["addip", a, b] =>
     match parseList D.parse a, parseList D.parse b with
@@ -273,7 +302,11 @@ def handleF (D : Dr α β) : List String → String
     | _, _, _ => "bad-op"
   | ["binv", xs] =>
     match parseList D.parse xs with
-    | some xs => resList D (batchInversion D.ops xs)
+    | some xs =>
+      let z := List.replicate xs.length D.ops.zero
+      chk (resList D (batchInversion D.ops xs))
+        (small xs.length fun _ => genList D (Gen.MathUtils.serial_batch_inversion_ok D.ops.toX xs z)
+          (Gen.MathUtils.serial_batch_inversion D.ops.toX xs z))
     | _ => "bad-op"
   | _ => "bad-op"
 
